@@ -17,7 +17,7 @@ from ..runner import main
 from .. import syscheck as sc
 
 CLAUSES = {"LastCopy", "NoLoss", "NoInventedContent"}
-GAPS = ["I", "I1", "IS", "ISS", "SI"]
+GAPS = ["I", "I1", "IS", "SI", "LSR", "RSL"]
 RESOLVERS = [None, ["pick", 0, True], ["pick", 1, True], ["merge", False], ["raise"]]
 
 
